@@ -250,6 +250,13 @@ Proof.
   apply Forall2_app; [exact IH|]. constructor; [|constructor]. destruct (ph' (fst q)); auto.
 Qed.
 
+Lemma olog_same ph qs ans : olog ph qs ans ->
+  Forall2 (fun q a => snd q (old_tab (fst q)) = snd q (new_tab (fst q)) -> a = snd q (old_tab (fst q))) qs ans.
+Proof.
+  induction 1 as [|ph ph' qs ans q _ IH _]; [constructor|].
+  apply Forall2_app; [exact IH|]. constructor; [|constructor]. intros E. destruct (ph' (fst q)); congruence.
+Qed.
+
 (* C06 for every schedule: a reader that is between two queries has, for the queries it has completed, answers
    that form an [olog]: each is the OLD or the NEW answer, and per table never NEW and later OLD *)
 Definition reader_sees_old_new (qs0 : list query) (t : thread K St L) : Prop :=
@@ -692,3 +699,25 @@ Proof.
   intros qs q _ _. apply reload_ops_once.
 Qed.
 End ReloadInstance.
+
+(* ---- the part of reload_writes_main_once that is read off the C code: the lock skeletons of the functions the
+   reload uses (regenerated from /repo on every run) ---- *)
+From Coq Require Import String.
+From RtrV Require Import Gen.LockSkeletons Conc.LockCheck.
+Local Open Scope string_scope.
+
+Definition reload_skeleton_check : bool :=
+  (* the swap: ONE critical section under the write lock of the main table (parameter a) that contains its writes *)
+  one_write_section "pfx_table_swap" "a" && one_write_section "spki_table_swap" "a" &&
+  (* reader operations: one critical section, no write *)
+  one_read_section no_tol "pfx_table_validate_r" "pfx_table" && one_read_section no_tol "pfx_table_validate" "pfx_table" &&
+  one_read_section no_tol "spki_table_get_all" "spki_table" && one_read_section no_tol "spki_table_search_by_ski" "spki_table" &&
+  (* building the shadow tables and computing the difference never write the main table *)
+  never_writes "pfx_table_copy_except_socket" "src_table" && never_writes "spki_table_copy_except_socket" "src" &&
+  never_writes "pfx_table_notify_diff" "new_table" && never_writes "spki_table_notify_diff" "new_table" &&
+  (* ... and the translator produced paths for all of them *)
+  negb (match paths_of "pfx_table_copy_except_socket", paths_of "spki_table_copy_except_socket", paths_of "spki_table_notify_diff" with
+        | _ :: _, _ :: _, _ :: _ => false | _, _, _ => true end).
+
+Lemma instance_reload_skeleton : reload_skeleton_check = true.
+Proof. vm_compute. reflexivity. Qed.
